@@ -328,6 +328,11 @@ static void c7_pagedamage(int kind,long i,long j,long long v){
         if(kind==9){ pg[14]=v&255; pg[15]=(v>>8)&255; pg[16]=(v>>16)&255; pg[17]=(v>>24)&255; c7_recrc(pg,len); }
         else if(kind==10){ int b; for(b=0;b<8;b++)pg[6+b]=(unsigned char)((unsigned long long)v>>(8*b)); c7_recrc(pg,len); }
         else if(kind==11){ pg[5]^=(unsigned char)v; c7_recrc(pg,len); }
+        else if(kind==24){ /* the j-th packet BEGINNING on this page gets its packet-type bit set (an audio packet turned into something the decoder refuses) */
+          long h=27+pg[26],off=h; int sgi=0,pk=0,cont=(pg[5]&1),done=0;
+          while(sgi<pg[26]&&!done){ long plen=0; int first=sgi; while(sgi<pg[26]){ plen+=pg[27+sgi]; if(pg[27+sgi++]<255)break; }
+            if(!(first==0&&cont)){ if(pk==(int)j){ if(off<len){ pg[off]|=1; c7_recrc(pg,len); } done=1; } pk++; }
+            off+=plen; } }
         else if(kind==21){ long h=27+pg[26]; if(len>h+2){ pg[h+1]^=0x20; c7_recrc(pg,len); } }   /* "\001vorbis" -> "\001Vorbis": the stream this page opens is not Vorbis any more */
         else if(kind==12){ pg[18]=v&255; pg[19]=(v>>8)&255; pg[20]=(v>>16)&255; pg[21]=(v>>24)&255; c7_recrc(pg,len); }
       }
